@@ -10,8 +10,8 @@ import (
 	"reflect"
 	"regexp"
 	"runtime"
-	"strconv"
 	"sort"
+	"strconv"
 	"strings"
 	"sync"
 
@@ -45,7 +45,7 @@ func cmdCorr(repo string, seed uint64, n int) int {
 		objs := map[int]*object{}
 		var obs []string
 		for _, o := range prog {
-			r := execOp(o, objs, shared)
+			r := execOp(o, objs, shared, cryptKey)
 			target := o.d
 			switch o.code {
 			case 'C', 'c', 'X', 'B', 'N', 'Y', 'F':
@@ -68,7 +68,13 @@ func cmdCorr(repo string, seed uint64, n int) int {
 			changed := shared.changed(false)
 			obs = append(obs, fmt.Sprintf("%s/%s/%s", r.class, alias, hx.Csv(changed)))
 		}
-		fmt.Fprintf(w, "S\t%d\t%d\t%s\t%s\n", id, tid, progString(prog), strings.Join(obs, ";"))
+		var lean []int
+		for k := range c.info {
+			if c.lean[k] && inputsRead(prog)[k] {
+				lean = append(lean, k)
+			}
+		}
+		fmt.Fprintf(w, "S\t%d\t%d\t%s\t%s\t%s\n", id, tid, progString(prog), strings.Join(obs, ";"), hx.Csv(lean))
 	}
 	return 0
 }
@@ -101,13 +107,13 @@ func pickUnsafe(rng *hx.Rng, c *corpus) (byte, int) {
 // ---------------------------------------------------------------- rounds
 
 type round struct {
-	id     int
-	mode   string // safe | known
-	progs  [][]op
-	unsafe []string // per goroutine: first in-place op on a shared input ("" if none)
+	id      int
+	mode    string // safe | known
+	progs   [][]op
+	unsafe  []string     // per goroutine: first in-place op on a shared input ("" if none)
 	targets map[int]bool // shared inputs some goroutine modifies in place (generator bookkeeping)
-	skew   []int
-	gosch  uint64
+	skew    []int
+	gosch   uint64
 }
 
 func (r *round) witness(seed uint64) string {
@@ -196,6 +202,13 @@ func genRound(seed uint64, k, n int, c *corpus) *round {
 				continue
 			}
 		}
+		if r.mode == "safe" && k%4 == 3 {
+			// inspection round: every goroutine decodes its own AC-3 / E-AC-3 configuration (or zoo file) from the
+			// shared bytes and inspects / re-encodes it
+			r.progs = append(r.progs, genInspect(rng, c, t))
+			r.unsafe = append(r.unsafe, "")
+			continue
+		}
 		p, _, _ := genProgram(rng, c, modeSafe, 0, 0, nops)
 		r.progs = append(r.progs, p)
 		r.unsafe = append(r.unsafe, "")
@@ -204,9 +217,18 @@ func genRound(seed uint64, k, n int, c *corpus) *round {
 }
 
 type roundOutcome struct {
-	diffs   []string // "<goroutine>:<op index>:<op name>" or "<goroutine>:final"
-	changed []int    // shared inputs whose hash changed
+	diffs    []string // "<goroutine>:<op index>:<op name>" or "<goroutine>:final"
+	changed  []int    // shared inputs whose hash changed
+	refdiffs []string // "<goroutine>:<op index>:<description>": independent reference / history oracle
 }
+
+type histEntry struct {
+	res   opResult
+	round int
+}
+
+// history: program prefix (with key class) -> result of its first sequential run in this process
+var history = map[string]histEntry{}
 
 // runRound: sequential references on private copies, then the concurrent run on the shared inputs.
 func runRound(r *round, c *corpus, shared *world) roundOutcome {
@@ -218,7 +240,7 @@ func runRound(r *round, c *corpus, shared *world) roundOutcome {
 	refs := make([]ref, g)
 	for t := 0; t < g; t++ {
 		priv := c.privateWorld(inputsRead(r.progs[t]))
-		res, fin, _ := runProgram(r.progs[t], priv, nil)
+		res, fin, _ := runProgram(r.progs[t], priv, goroutineKey(t), nil)
 		refs[t] = ref{res, fin}
 	}
 	got := make([]ref, g)
@@ -233,7 +255,7 @@ func runRound(r *round, c *corpus, shared *world) roundOutcome {
 			for i := 0; i < r.skew[t]; i++ {
 				runtime.Gosched()
 			}
-			res, fin, _ := runProgram(r.progs[t], shared, func(int) {
+			res, fin, _ := runProgram(r.progs[t], shared, goroutineKey(t), func(int) {
 				for i := rng.Intn(4); i > 0; i-- {
 					runtime.Gosched()
 				}
@@ -245,6 +267,31 @@ func runRound(r *round, c *corpus, shared *world) roundOutcome {
 	wg.Wait()
 	var out roundOutcome
 	for t := 0; t < g; t++ {
+		// independent reference (AC-3 channel tables): in the sequential or in the concurrent run
+		for _, rs := range [][]opResult{refs[t].res, got[t].res} {
+			for i, x := range rs {
+				if x.bad != "" {
+					out.refdiffs = append(out.refdiffs, fmt.Sprintf("%d:%d:%s", t, i, x.bad))
+					break
+				}
+			}
+		}
+		// history: the same program prefix run alone on fresh copies of the same inputs with the same key gave
+		// something else earlier in this process
+		for i := 0; i < len(refs[t].res) && i < 4; i++ {
+			key := fmt.Sprintf("%d/%s", t%3, progString(r.progs[t][:i+1]))
+			x := refs[t].res[i]
+			x.bad = ""
+			if old, ok := history[key]; ok {
+				if old.res != x {
+					out.refdiffs = append(out.refdiffs, fmt.Sprintf("%d:%d:%s run alone now gives %s/%s, in round %d it gave %s/%s (hidden state kept across calls)",
+						t, i, opName(r.progs[t][i].code), x.class, x.digest, old.round, old.res.class, old.res.digest))
+					break
+				}
+			} else if len(history) < 200000 {
+				history[key] = histEntry{x, r.id}
+			}
+		}
 		found := false
 		for i := range refs[t].res {
 			if i >= len(got[t].res) || refs[t].res[i] != got[t].res[i] {
@@ -275,6 +322,7 @@ func cmdWorker(repo string, seed uint64, from, n, known, stride int) int {
 	for k, in := range c.info {
 		fmt.Printf("INPUTNAME\t%d\t%s\n", k, in.name)
 	}
+	fmt.Printf("BOXTYPES\t%d\n", len(c.boxTypes))
 	for k := from; k < n+known; k += stride {
 		r := genRound(seed, k, n, c)
 		fmt.Printf("ROUND\t%d\t%s\t%d\t%s\t%s\n", k, r.mode, len(r.progs), strings.Join(r.unsafe, ","), r.witness(seed))
@@ -304,7 +352,10 @@ func cmdWorker(repo string, seed uint64, from, n, known, stride int) int {
 			}
 			out.diffs[i] = d + attr
 		}
-		fmt.Printf("DONE\t%d\t%d\t%s\t%s\t%s\n", k, nops, strings.Join(out.diffs, ","), hx.Csv(out.changed), hx.Csv(tl))
+		for i := range out.refdiffs {
+			out.refdiffs[i] = strings.NewReplacer("\t", " ", "\n", " ", "|", "/").Replace(out.refdiffs[i])
+		}
+		fmt.Printf("DONE\t%d\t%d\t%s\t%s\t%s\t%s\n", k, nops, strings.Join(out.diffs, ","), hx.Csv(out.changed), hx.Csv(tl), strings.Join(out.refdiffs, "|"))
 	}
 	return 0
 }
@@ -365,6 +416,7 @@ func cmdSearch(repo string, seed uint64, n, known int, norace bool, workers int)
 		done    bool
 		nops    int
 		diffs   []string
+		refd    []string
 		changed string
 		targets string
 		races   []raceReport
@@ -374,6 +426,7 @@ func cmdSearch(repo string, seed uint64, n, known int, norace bool, workers int)
 	}
 	rounds := map[int]*rinfo{}
 	names := map[string]string{}
+	boxTypes := 0
 	var order []int
 	var mu sync.Mutex
 	var wg sync.WaitGroup
@@ -409,6 +462,8 @@ func cmdSearch(repo string, seed uint64, n, known int, norace bool, workers int)
 				switch f[0] {
 				case "INPUTNAME":
 					names[f[1]] = f[2]
+				case "BOXTYPES":
+					boxTypes, _ = strconv.Atoi(f[1])
 				case "INPUTADDR":
 					lo, _ := strconv.ParseUint(f[2], 10, 64)
 					ln, _ := strconv.ParseUint(f[3], 10, 64)
@@ -429,6 +484,9 @@ func cmdSearch(repo string, seed uint64, n, known int, norace bool, workers int)
 						}
 						ri.changed = f[4]
 						ri.targets = f[5]
+						if len(f) > 6 && f[6] != "" {
+							ri.refd = strings.Split(f[6], "|")
+						}
 					}
 				}
 			}
@@ -533,10 +591,23 @@ func cmdSearch(repo string, seed uint64, n, known int, norace bool, workers int)
 				fmt.Printf("FAIL\t%s\tresult-differs\t%s\tgoroutine:op %s differs from its sequential run\n", site, ri.witness, d)
 			}
 		}
+		for _, d := range ri.refd {
+			fmt.Printf("FAIL\t%s\treference-differs\t%s\tgoroutine:op:%s\n", site, ri.witness, d)
+		}
 		if known && hit {
 			nKnownHit++
 		}
 	}
+	nz, na := 0, 0
+	for _, nm := range names {
+		if strings.HasPrefix(nm, "zoo:") {
+			nz++
+		}
+		if strings.HasPrefix(nm, "dac3:") || strings.HasPrefix(nm, "dec3:") || strings.HasPrefix(nm, "ac-3-init") || strings.HasPrefix(nm, "ec-3-init") {
+			na++
+		}
+	}
+	fmt.Printf("STAT\tinputs\t%d\nSTAT\tzoo_files\t%d\nSTAT\tzoo_box_types\t%d\nSTAT\tac3_inputs\t%d\n", len(names), nz, boxTypes, na)
 	fmt.Printf("EVALS\t%d\n", evals)
 	fmt.Printf("STAT\trounds\t%d\nSTAT\trace_reports\t%d\nSTAT\tknown_rounds\t%d\nSTAT\tknown_rounds_reproduced\t%d\nSTAT\tworker_exit\t%d\n",
 		len(order), nraces, nKnownRounds, nKnownHit, exit)
@@ -576,7 +647,7 @@ func cmdReplay(repo, w string, norace bool) int {
 		shared := c.sharedWorld()
 		for i := 0; i < 25; i++ {
 			out := runRound(r, c, shared)
-			fmt.Printf("run %d: diffs=%v changed-inputs=%v\n", i, out.diffs, out.changed)
+			fmt.Printf("run %d: diffs=%v changed-inputs=%v reference=%v\n", i, out.diffs, out.changed, out.refdiffs)
 		}
 		return 0
 	}
@@ -591,7 +662,7 @@ func cmdReplay(repo, w string, norace bool) int {
 	if n > 0 {
 		fmt.Println(firstLines(se.String(), 40))
 	}
-	if n > 0 || strings.Contains(so.String(), "diffs=[") && !strings.Contains(so.String(), "diffs=[] changed-inputs=[]") {
+	if n > 0 || strings.Contains(so.String(), "diffs=[") && !strings.Contains(so.String(), "diffs=[] changed-inputs=[] reference=[]") {
 		return 1
 	}
 	return 0
